@@ -1,0 +1,9 @@
+//go:build !verif
+
+package parse
+
+// Verification hooks (build tag "verif"); no-ops in normal builds.
+
+func verifEnter(string, int) {}
+
+func verifClaim(string, string, string, int) {}
